@@ -2,6 +2,8 @@
 package run
 
 import (
+	"crypto/sha256"
+	"encoding/hex"
 	"encoding/json"
 	"fmt"
 	"os"
@@ -150,6 +152,7 @@ func Execute(t *testing.T, p *Plan, keepTrace bool) (res *Result) {
 		}()
 		synctest.Test(t, func(t *testing.T) {
 			w := core.NewWorld(t, p.Seed, p.Trace, p.Stalls, !p.Free)
+			w.Logf("plan %s", planDigest(p))
 			func() {
 				defer func() {
 					// a panic on the driver goroutine is a harness bug unless an engine says otherwise
@@ -189,6 +192,14 @@ func Execute(t *testing.T, p *Plan, keepTrace bool) (res *Result) {
 		})
 	}()
 	return res
+}
+
+func planDigest(p *Plan) string {
+	q := *p
+	q.Trace = nil
+	b, _ := json.Marshal(&q)
+	h := sha256.Sum256(b)
+	return hex.EncodeToString(h[:8])
 }
 
 // Init prepares the process for deterministic runs.
